@@ -31,10 +31,15 @@ def gen(ctx, n):
             nd = k - 1
             groups = r.choice([1, 1, 2])
             cin, cout = groups * r.randint(1, 2), groups * r.randint(1, 2)
-            ksz, dil = r.randint(1, 3), r.randint(1, 2)
-            pad = r.choice([0, 1, 2, 'same', 'valid'])
+            if nd > 1 and r.random() < 0.6:        # anisotropic kernels / dilations
+                ksz = [r.randint(1, 3) for _ in range(nd)]
+                dil = [r.randint(1, 2) for _ in range(nd)]
+                size = max((k_ - 1) * d_ + 1 for k_, d_ in zip(ksz, dil)) + r.randint(0, 3)
+            else:
+                ksz, dil = r.randint(1, 3), r.randint(1, 2)
+                size = (ksz - 1) * dil + 1 + r.randint(0, 3)
+            pad = r.choice([0, 1, 2, 'same', 'same', 'valid'])
             stride = 1 if pad == 'same' else r.randint(1, 3)
-            size = (ksz - 1) * dil + 1 + r.randint(0, 3)
             add('conv%d' % nd, {'cin': cin, 'cout': cout, 'k': ksz, 'stride': stride, 'pad': pad, 'dil': dil, 'groups': groups, 'bias': r.random() < 0.7,
                                'norm': r.choice(['gn', 'in', 'none']), 'gn_groups': r.choice([1, cout]), 'size': size, 'o': 2})
         elif k == 5:
